@@ -3,11 +3,12 @@ import CV.Driver.Util
 /-!
 Line protocol for the Huffman codebooks:
 
-`huff <ty> [k] | <weights> | op | op …`
+`huff <ty> | <weights> | op | op …`
 
-* `ty` ∈ `u8 u16 u32 u64 usize f32 f64`; for float types the optional `k` scales every weight
-  by `2^-k` on the Rust side (exact; irrelevant to the model).
-* `weights`: comma separated hex naturals, `nan` = NaN (float types) / an injected `Err` item of
+* `ty` ∈ `u8 u16 u32 u64 usize` (weights: hex naturals) or `f32 f64` (weights: hex IEEE **bit
+  patterns**, so that sums round on both sides exactly as in the Rust code; NaN patterns are
+  rejected by the constructor).
+* `weights`: comma separated, `nan` = NaN (float types) / an injected `Err` item of
   `try_from_probabilities` (integer types); `-` = empty list.
   Output: `<enc status> <dec status>` (`ok`, `rejected`, `panic:…`); the line ends there unless
   both are `ok`.
@@ -18,14 +19,12 @@ Line protocol for the Huffman codebooks:
 namespace CV.Driver.Huff
 open CV CV.Driver CV.Huff
 
-def widthOf : String → Option (Option Nat)
-  | "u8" => some (some 8)
-  | "u16" => some (some 16)
-  | "u32" => some (some 32)
-  | "u64" => some (some 64)
-  | "usize" => some (some 64)
-  | "f32" => some none
-  | "f64" => some none
+def intWidth : String → Option Nat
+  | "u8" => some 8
+  | "u16" => some 16
+  | "u32" => some 32
+  | "u64" => some 64
+  | "usize" => some 64
   | _ => none
 
 def parseWeights (s : String) : Option (List (Option Nat)) :=
@@ -38,6 +37,34 @@ def parseWeights (s : String) : Option (List (Option Nat)) :=
       else match parseHex t with
         | some v => some (some v :: l)
         | none => none) (some [])
+
+/-- both constructors for one header/weights pair; `none` = unparseable -/
+def buildBoth (ty : String) (weights : List (Option Nat)) :
+    Option (Except BuildErr (List Nat) × Except BuildErr (List (Nat × Nat))) :=
+  match intWidth ty with
+  | some n =>
+    -- weights are values of the type: a token that does not fit is malformed
+    if weights.all (fun w => match w with | some v => v < 2^n | none => true) then
+      some (tryEncTree (checkedOps n) weights, tryDecTree (checkedOps n) weights)
+    else none
+  | none =>
+    if ty == "f32" then
+      if weights.all (fun w => match w with | some v => v < 2^32 | none => true) then
+        let fl : List Float32 := weights.map (fun w => match w with
+          | some v => Float32.ofBits (UInt32.ofNat v)
+          | none => Float32.ofBits 0x7fc00000)
+        let ws := f32Weights fl
+        some (tryEncTree f32Ops ws, tryDecTree f32Ops ws)
+      else none
+    else if ty == "f64" then
+      if weights.all (fun w => match w with | some v => v < 2^64 | none => true) then
+        let fl : List Float := weights.map (fun w => match w with
+          | some v => Float.ofBits (UInt64.ofNat v)
+          | none => Float.ofBits 0x7ff8000000000000)
+        let ws := f64Weights fl
+        some (tryEncTree f64Ops ws, tryDecTree f64Ops ws)
+      else none
+    else none
 
 def showBits (l : List Bool) : String :=
   if l.isEmpty then "-" else String.ofList (l.map (fun b => if b then '1' else '0'))
@@ -121,17 +148,17 @@ def runOps (en : List Nat) (dn : List (Nat × Nat)) : List (List String) → Lis
 
 def handle (segs : List (List String)) : String :=
   match segs with
-  | ("huff" :: ty :: scale) :: [ws] :: ops =>
-    match widthOf ty, parseWeights ws, parseCap scale with
-    | some wb, some weights, some sc =>
-      if wb.isSome && sc.isSome then "bad-op" else
-      let e := tryEncTree wb weights
-      let d := tryDecTree wb weights
-      let head := buildStr e ++ " " ++ buildStr d
-      match e, d with
-      | .ok en, .ok dn => " | ".intercalate (runOps en dn ops [head])
-      | _, _ => head
-    | _, _, _ => "bad-op"
+  | ["huff", ty] :: [ws] :: ops =>
+    match parseWeights ws with
+    | some weights =>
+      match buildBoth ty weights with
+      | some (e, d) =>
+        let head := buildStr e ++ " " ++ buildStr d
+        match e, d with
+        | .ok en, .ok dn => " | ".intercalate (runOps en dn ops [head])
+        | _, _ => head
+      | none => "bad-op"
+    | none => "bad-op"
   | _ => "bad-op"
 
 end CV.Driver.Huff
